@@ -138,6 +138,16 @@ func freshBind(r *rand.Rand, used map[string]bool) string {
 	if r.Intn(12) == 0 { // deliberate reuse
 		return pick(r, bindNames)
 	}
+	if r.Intn(40) == 0 {
+		// names that mean something elsewhere: the URL builder's own switch, the limit's keyword (a bind named `route`
+		// is shadowed by the reserved parameter: only the dedicated sessions of C02 use it, through the router)
+		for _, b := range []string{"withOptional", "capture"} {
+			if !used[b] && r.Intn(2) == 0 {
+				used[b] = true
+				return b
+			}
+		}
+	}
 	for i := 0; i < 8; i++ {
 		b := pick(r, bindNames)
 		if !used[b] {
@@ -198,6 +208,15 @@ func genSeg(r *rand.Rand, used map[string]bool, prof *profile, last bool) gSeg {
 				cv = pick(r, []string{"x", "-1", "+2", "0", "99999999999999999999"})
 			}
 			e = gElem{kind: 'p', params: []gParam{{b, false, "**"}, {"capture", false, cv}}}
+			if r.Intn(12) == 0 {
+				// the limit spelled as an expression (`capture: /2/`), another keyword, a third parameter
+				e = gElem{kind: 'p', params: [][]gParam{
+					{{b, false, "**"}, {"capture", true, cv}},
+					{{b, false, "**"}, {"limit", false, cv}},
+					{{b, false, "**"}, {"capture", false, cv}, {"capture", false, "1"}},
+					{{b, false, "**"}, {"Capture", false, cv}},
+				}[r.Intn(4)]}
+			}
 		default:
 			e = gElem{kind: 'p', params: []gParam{{b, false, "**"}}}
 		}
